@@ -46,17 +46,17 @@ def batches(tier, seed):
     if tier == "quick":
         n, parts = 6000, 4
         res = [dict(args=["--seed", _seed(seed, i), "--cases", str(n // parts), "--tier", tier], tag="g%d" % i,
-                    timeout=300) for i in range(parts)]
+                    timeout=60) for i in range(parts)]
         # a slice of the exhaustive family (<= 2 rounds over 4 globals), rotating with the seed
         res.append(dict(args=["--seed", "1", "--cases", "1300", "--enum", "1", "--offset", str((seed * 1300) % 10368)],
-                        tag="enum", timeout=300))
+                        tag="enum", timeout=60))
         return res
     n, parts = 240000, 12
     res = [dict(args=["--seed", _seed(seed, 20 + i), "--cases", str(n // parts), "--tier", tier], tag="g%d" % i,
-                timeout=3000) for i in range(parts)]
-    res.append(dict(args=["--seed", "1", "--cases", "10368", "--enum", "1"], tag="enum", timeout=1200))
+                timeout=900) for i in range(parts)]
+    res.append(dict(args=["--seed", "1", "--cases", "10368", "--enum", "1"], tag="enum", timeout=600))
     return res
 
 
 def search_batches(seed):
-    return [dict(args=["--seed", _seed(seed, 40 + i), "--cases", "30000"], timeout=900) for i in range(3)]
+    return [dict(args=["--seed", _seed(seed, 40 + i), "--cases", "30000"], timeout=300) for i in range(3)]
